@@ -58,6 +58,7 @@ pub trait Hooks {
 }
 
 pub const SIG: &str = "fn() -> bool";
+pub static COUNTED_NEVER_CALLED: std::sync::atomic::AtomicUsize = std::sync::atomic::AtomicUsize::new(0);
 
 macro_rules! variant_mod {
     ($m:ident, $krate:ident) => {
@@ -75,6 +76,8 @@ macro_rules! variant_mod {
                         "checked" => inj.when_called(FuncPtr::new(t, SIG)).will_execute((FuncPtr::new(f, SIG), CallCountVerifier::Dummy)),
                         "unchecked" => inj.when_called_unchecked(FuncPtr::new(t, "")).will_execute_raw_unchecked(FuncPtr::new(f, "")),
                         "boolean" => inj.when_called(FuncPtr::new(t, SIG)).will_return_boolean(op.value),
+                        // a fake with an expectation that is never met: scope exit panics in the verifier
+                        "counted" => inj.when_called(FuncPtr::new(t, SIG)).will_execute((FuncPtr::new(f, SIG), CallCountVerifier::WithCount { counter: &COUNTED_NEVER_CALLED, expected: 1 })),
                         k => panic!("harness: unknown install kind {k}"),
                     }
                 }
@@ -145,6 +148,8 @@ struct Checker<'a> {
     regions_before: Vec<(u64, u64)>,
     slot_before: Vec<u8>,
     mprotect_faults_before: u64,
+    counted_installed: bool,
+    last_exit_ok: bool,
     lifetime: usize,
     op_ordinal: u64,
     /// bytes written to code and not yet covered by an icache flush
@@ -504,6 +509,9 @@ impl<'a> Hooks for Checker<'a> {
         match r {
             OpResult::Ok => {
                 self.out.installs_ok += 1;
+                if op.kind == "counted" {
+                    self.counted_installed = true;
+                }
                 self.named.insert(op.target);
                 self.model[op.target].push(if op.kind == "boolean" { Inst::Bool(op.value) } else { Inst::Fake(op.fake) });
                 self.check_events(&what, Some(op.target));
@@ -556,6 +564,12 @@ impl<'a> Hooks for Checker<'a> {
             }
             OpResult::Panic(msg) => {
                 self.out.installs_refused += 1;
+                if op.kind == "counted" {
+                    // observed behaviour, outside the listed properties: the expectation of a
+                    // refused `will_execute` stays registered and is verified at scope exit
+                    self.counted_installed = true;
+                    self.probe("expectation_pending_after_refused_install");
+                }
                 *self.out.faults.entry("install_panicked".into()).or_insert(0) += 1;
                 if msg.contains("Failed to allocate") {
                     self.probe("scan_exhausted");
@@ -605,6 +619,10 @@ impl<'a> Hooks for Checker<'a> {
     }
 }
 
+fn r_ok_but_should_have_panicked(ck: &Checker, lt: &Lifetime) -> bool {
+    ck.counted_installed && !lt.exit_panic && ck.last_exit_ok
+}
+
 fn build_world(sc: &SimScenario) -> (World, Vec<(u64, Vec<u8>)>) {
     let mut w = World::new(sc.page_size);
     let p = &sc.policy;
@@ -627,10 +645,31 @@ fn build_world(sc: &SimScenario) -> (World, Vec<(u64, Vec<u8>)>) {
         win_granule: 0x10000,
     };
     let mut pristine = Vec::new();
+    let (arch, _) = variant_arch_os(&sc.variant);
     for t in &sc.text {
         let len = t.pages * sc.page_size;
         let mut r = simos::rng::Rng::new(t.fill_seed);
-        let data = r.bytes(len as usize);
+        let mut data = r.bytes(len as usize);
+        // tail-call forwarders: the target's first instruction jumps to a bystander
+        for (ti, bi) in &sc.forwarders {
+            if let (Some(ta), Some(ba)) = (sc.targets.get(*ti), sc.bystanders.get(*bi)) {
+                if *ta >= t.addr && *ta + 8 <= t.addr + len {
+                    let off = (*ta - t.addr) as usize;
+                    match arch {
+                        Arch::X86_64 => {
+                            let rel = (*ba as i64 - (*ta as i64 + 5)) as i32;
+                            data[off] = 0xE9;
+                            data[off + 1..off + 5].copy_from_slice(&rel.to_le_bytes());
+                        }
+                        Arch::A64 => {
+                            let imm = (((*ba as i64 - *ta as i64) / 4) as u32) & 0x03FF_FFFF;
+                            data[off..off + 4].copy_from_slice(&(0x1400_0000u32 | imm).to_le_bytes());
+                        }
+                        Arch::Arm => {}
+                    }
+                }
+            }
+        }
         pristine.push((t.addr, data.clone()));
         w.map_fixed(t.addr, len, PROT_R | PROT_X, Owner::Text, Some(data));
     }
@@ -665,6 +704,11 @@ pub fn validate(sc: &SimScenario) -> Result<(), String> {
             }
         }
     }
+    for (ti, bi) in &sc.forwarders {
+        if *ti >= sc.targets.len() || *bi >= sc.bystanders.len() {
+            return Err("forwarder index".into());
+        }
+    }
     for lt in &sc.lifetimes {
         for op in &lt.ops {
             if op.target >= sc.targets.len() {
@@ -691,6 +735,8 @@ pub fn execute(sc: &SimScenario) -> Outcome {
         regions_before: Vec::new(),
         slot_before: Vec::new(),
         mprotect_faults_before: 0,
+        counted_installed: false,
+        last_exit_ok: false,
         lifetime: 0,
         op_ordinal: 0,
         dirty: BTreeSet::new(),
@@ -703,7 +749,9 @@ pub fn execute(sc: &SimScenario) -> Outcome {
             m.clear();
         }
         ck.ev_mark = with_world(|w| w.events.len());
+        ck.counted_installed = false;
         let r = dispatch(&sc.variant, lt, &sc.targets, &mut ck);
+        ck.last_exit_ok = matches!(r, OpResult::Ok);
         if ck.out.probes.contains_key("aborted_after_segv") {
             break;
         }
@@ -715,8 +763,18 @@ pub fn execute(sc: &SimScenario) -> Outcome {
                 break;
             }
             OpResult::Panic(m) => {
-                ck.viol("drop-panicked", &["C02", "C05"], format!("{what}: unexpected panic {m:?}"));
+                // a counted fake that was never called makes the verifier panic at scope exit:
+                // a normal way for a lifetime to end; restoration is judged all the same
+                let counted_live = ck.counted_installed;
+                if counted_live && !lt.exit_panic && m.contains("expected to be called") {
+                    *ck.out.faults.entry("verification_panic_at_scope_exit".into()).or_insert(0) += 1;
+                } else {
+                    ck.viol("drop-panicked", &["C02", "C05"], format!("{what}: unexpected panic {m:?}"));
+                }
             }
+        }
+        if r_ok_but_should_have_panicked(&ck, lt) {
+            ck.viol("unsatisfied-expectation-not-reported", &["C06"], format!("{what}: a counted fake was never called yet scope exit did not panic"));
         }
         // model: everything is original again
         for m in ck.model.iter_mut() {
